@@ -6,6 +6,7 @@ package c20_pkg is
     g : integer ;
   end record ;
   type arr_t is array ( 0 to 3 ) of integer ;
+  type mem_t is array ( 0 to 3 ) of bit_vector ( 3 downto 0 ) ;
   signal gs : bit ;
   constant kc : integer := 2 ;
   function fb ( x : bit ) return bit ;
@@ -20,6 +21,7 @@ package c20_pkg is
   procedure po ( signal a : in bit ; signal o : out bit ) ;
   procedure pio ( signal a : inout bit ; b : in bit ) ;
   procedure pvo ( a : in bit ; v : out bit ) ;
+  procedure pov ( signal a : in bit ; signal o : out bit_vector ) ;
 end package ;
 package body c20_pkg is
   function fb ( x : bit ) return bit is begin return x ; end function ;
@@ -34,6 +36,7 @@ package body c20_pkg is
   procedure po ( signal a : in bit ; signal o : out bit ) is begin o <= a ; end procedure ;
   procedure pio ( signal a : inout bit ; b : in bit ) is begin a <= b ; end procedure ;
   procedure pvo ( a : in bit ; v : out bit ) is begin v := a ; end procedure ;
+  procedure pov ( signal a : in bit ; signal o : out bit_vector ) is begin o ( o ' low ) <= a ; end procedure ;
 end package body ;
 use work.c20_pkg.all ;
 entity c20_e is
@@ -53,6 +56,7 @@ const ARCH_DECLS: &str = "\
   signal oa0 : arr_t ;
   signal or0 : rec_t ;
   signal ot0 : boolean ;
+  signal m0 , m1 , om0 : mem_t ;
 ";
 const PROC_DECLS: &str = "    variable xb : bit ; variable xi : integer ; variable xv : bit_vector ( 3 downto 0 ) ; variable xt : boolean ;";
 
@@ -64,9 +68,11 @@ enum Ty {
     Arr,
     Rec,
     Bool,
+    Mem,
 }
 /// (name, type) of signal id i+1
-const SIGNALS: [(&str, Ty); 33] = [
+const NSIG: u32 = 36;
+const SIGNALS: [(&str, Ty); 36] = [
     ("b0", Ty::Bit), ("b1", Ty::Bit), ("b2", Ty::Bit), ("b3", Ty::Bit), ("b4", Ty::Bit), ("b5", Ty::Bit),
     ("p0", Ty::Bit), ("gs", Ty::Bit),
     ("i0", Ty::Int), ("i1", Ty::Int), ("i2", Ty::Int), ("i3", Ty::Int), ("p1", Ty::Int),
@@ -78,10 +84,16 @@ const SIGNALS: [(&str, Ty); 33] = [
     ("ob0", Ty::Bit), ("ob1", Ty::Bit), ("ob2", Ty::Bit),
     ("oi0", Ty::Int), ("oi1", Ty::Int),
     ("ov0", Ty::Vec), ("oa0", Ty::Arr), ("or0", Ty::Rec), ("ot0", Ty::Bool),
+    ("m0", Ty::Mem), ("m1", Ty::Mem), ("om0", Ty::Mem),
 ];
 const GS: u32 = 8;
 const CLK: u32 = 24;
-const ROOT: &str = "1 33 100 102";
+/// signals 1..36; subprograms with their formals (`o id n formals.. returns_boolean`), parameter objects (`p id mode is_signal`)
+const ROOT: &str = "1 36 o 100 1 400 1 o 101 1 401 1 o 102 1 402 1 o 205 2 403 404 1 \
+o 206 4 410 411 412 413 0 o 207 2 414 415 0 o 208 2 416 417 0 o 209 2 418 419 0 o 228 2 420 421 0 o 229 2 422 423 0 \
+p 400 i 1 p 401 i 1 p 402 i 0 p 403 i 0 p 404 i 0 p 410 i 0 p 411 i 0 p 412 i 0 p 413 i 0 p 414 i 1 p 415 i 0 \
+p 416 i 1 p 417 o 1 p 418 i 0 p 419 o 0 p 420 b 1 p 421 i 0 p 422 i 1 p 423 o 1";
+const ID_POV: u32 = 229;
 const ID_RISING: u32 = 100;
 const ID_FALLING: u32 = 101;
 const ID_IS_ONE: u32 = 102;
@@ -190,7 +202,7 @@ struct Snap {
 }
 /// some designator of the expression denotes a signal
 fn has_signal(e: &E) -> bool {
-    let is_sig = |d: &Option<u32>| matches!(d, Some(i) if *i >= 1 && *i <= 33);
+    let is_sig = |d: &Option<u32>| matches!(d, Some(i) if *i >= 1 && *i <= NSIG);
     match e {
         E::Lit(_) => false,
         E::Desig(_, d) => is_sig(d),
@@ -352,7 +364,7 @@ impl G {
         }
     }
     fn gen_bit(&mut self, d: u32) -> E {
-        let k = if d == 0 { self.rng.below(3) } else { self.rng.below(16) };
+        let k = if d == 0 { self.rng.below(3) } else { self.rng.below(18) };
         match k {
             0 => {
                 let v = *self.rng.pick(&["'0'", "'1'"]);
@@ -436,6 +448,38 @@ impl G {
                     self.lit("'1'")
                 }
             }
+            16 => match self.pick_sig(Ty::Mem) {
+                // element of an element of an array of arrays: m ( i ) ( j )
+                Some(s) => {
+                    let p = self.read(s);
+                    self.em.tok("(");
+                    let i = self.int_index(d);
+                    let b = self.em.tok(")");
+                    let inner = E::Call((p.sp().0, b), Box::new(p), vec![i]);
+                    self.em.tok("(");
+                    let j = self.int_index(d);
+                    let b2 = self.em.tok(")");
+                    E::Call((inner.sp().0, b2), Box::new(inner), vec![j])
+                }
+                None => self.lit("'0'"),
+            },
+            17 => match self.pick_sig(Ty::Vec) {
+                // element of a slice: v ( 3 downto 0 ) ( j )
+                Some(s) => {
+                    let p = self.read(s);
+                    self.em.tok("(");
+                    let hi = self.lit("3");
+                    self.em.tok("downto");
+                    let lo = self.lit("0");
+                    let b = self.em.tok(")");
+                    let inner = E::Slice((p.sp().0, b), Box::new(p), vec![hi, lo]);
+                    self.em.tok("(");
+                    let j = self.int_index(d);
+                    let b2 = self.em.tok(")");
+                    E::Call((inner.sp().0, b2), Box::new(inner), vec![j])
+                }
+                None => self.lit("'1'"),
+            },
             _ => match self.pick_sig(Ty::Bit) {
                 Some(s) => self.read(s),
                 None => self.name("xb", ID_XB),
@@ -522,7 +566,7 @@ impl G {
     }
     /// rhs: directly the right-hand side of an assignment to a constrained vector (aggregates allowed bare)
     fn gen_vec(&mut self, d: u32, rhs: bool) -> E {
-        let k = if d == 0 { self.rng.below(3) } else { self.rng.below(11) };
+        let k = if d == 0 { self.rng.below(3) } else { self.rng.below(13) };
         match k {
             0 => {
                 let v = *self.rng.pick(&["\"0101\"", "\"1100\"", "x\"A\""]);
@@ -614,6 +658,27 @@ impl G {
                 let e = self.paren_if(d - 1, &|g, d| g.gen_vec(d, false));
                 E::Unary((a, e.sp().1), Box::new(e))
             }
+            11 | 12 => match self.pick_sig(Ty::Mem) {
+                // m ( i )   or   m ( i ) ( 3 downto 0 )
+                Some(s) => {
+                    let p = self.read(s);
+                    self.em.tok("(");
+                    let i = self.int_index(d);
+                    let b = self.em.tok(")");
+                    let inner = E::Call((p.sp().0, b), Box::new(p), vec![i]);
+                    if k == 11 {
+                        inner
+                    } else {
+                        self.em.tok("(");
+                        let hi = self.lit("3");
+                        self.em.tok("downto");
+                        let lo = self.lit("0");
+                        let b2 = self.em.tok(")");
+                        E::Slice((inner.sp().0, b2), Box::new(inner), vec![hi, lo])
+                    }
+                }
+                None => self.lit("\"0110\""),
+            },
             _ => {
                 let a = self.em.tok("(");
                 let e = self.gen_vec(d - 1, false);
@@ -1056,26 +1121,102 @@ impl G {
             S::SigAssign(t, Rhs::Simple(w))
         }
     }
-    fn gen_call(&mut self, d: u32) -> S {
-        let which = self.rng.below(10);
-        let (pname, pid, formals, modes): (&str, u32, Vec<&str>, Vec<char>) = match which {
-            0..=4 => ("pb", ID_PB, vec!["a", "b", "c", "d"], vec!['i'; 4]),
-            5 | 6 => ("psig", ID_PS, vec!["a", "b"], vec!['i', 'i']),
-            7 => ("pvo", ID_PVO, vec!["a", "v"], vec!['i', 'o']),
-            8 => ("pio", ID_PIO, vec!["a", "b"], vec!['b', 'i']),
-            _ => {
-                if self.allow_outact {
-                    ("po", ID_PO, vec!["a", "o"], vec!['i', 'o'])
-                } else {
-                    ("pb", ID_PB, vec!["a", "b", "c", "d"], vec!['i'; 4])
-                }
+    /// a signal name that is written (actual of an out-mode formal): not a read; logged for the pre-fix oracle
+    fn written(&mut self, n: &str) -> E {
+        self.outact = true;
+        let id = sig_id(n).unwrap();
+        let e = self.name(n, id);
+        self.outs.push((id, e.sp(), self.reads.len()));
+        e
+    }
+    /// bit-typed actual of an out-mode signal formal: a signal, an element, a record element, an element of an element
+    fn out_bit_actual(&mut self, d: u32) -> E {
+        match self.rng.below(6) {
+            0 | 1 => {
+                let n = *self.rng.pick(&["ob0", "ob1", "ob2"]);
+                self.written(n)
             }
+            2 | 3 => {
+                // ov0 ( <index expression: read> )
+                let p = self.written("ov0");
+                self.em.tok("(");
+                let i = self.int_index(d);
+                let b = self.em.tok(")");
+                E::Call((p.sp().0, b), Box::new(p), vec![i])
+            }
+            4 => {
+                let t = self.em.tok("or0");
+                self.outact = true;
+                self.em.tok(".");
+                let b = self.em.tok("f");
+                E::Selected((t, b), Box::new(E::Desig((t, t), Some(sig_id("or0").unwrap()))), Some(ID_F))
+            }
+            _ => {
+                // om0 ( i ) ( j )
+                let p = self.written("om0");
+                self.em.tok("(");
+                let i = self.int_index(d);
+                let b = self.em.tok(")");
+                let inner = E::Call((p.sp().0, b), Box::new(p), vec![i]);
+                self.em.tok("(");
+                let j = self.int_index(d);
+                let b2 = self.em.tok(")");
+                E::Call((inner.sp().0, b2), Box::new(inner), vec![j])
+            }
+        }
+    }
+    /// the bounds `hi downto 0` of a slice in a written name: read by analyze_written_name (in the family)
+    fn written_slice(&mut self, p: E, d: u32) -> E {
+        self.em.tok("(");
+        let hi = if self.rng.chance(1, 2) { self.gen_int(d.min(1)) } else { self.lit("3") };
+        self.em.tok("downto");
+        let lo = self.lit("0");
+        let b = self.em.tok(")");
+        E::Slice((p.sp().0, b), Box::new(p), vec![hi, lo])
+    }
+    /// bit_vector-typed actual of an out-mode signal formal
+    fn out_vec_actual(&mut self, d: u32) -> E {
+        match self.rng.below(5) {
+            0 => self.written("ov0"),
+            1 | 2 => {
+                let p = self.written("ov0");
+                self.written_slice(p, d)
+            }
+            3 => {
+                let p = self.written("om0");
+                self.em.tok("(");
+                let i = self.int_index(d);
+                let b = self.em.tok(")");
+                E::Call((p.sp().0, b), Box::new(p), vec![i])
+            }
+            _ => {
+                let p = self.written("om0");
+                self.em.tok("(");
+                let i = self.int_index(d);
+                let b = self.em.tok(")");
+                let inner = E::Call((p.sp().0, b), Box::new(p), vec![i]);
+                self.written_slice(inner, d)
+            }
+        }
+    }
+    fn gen_call(&mut self, d: u32) -> S {
+        let which = self.rng.below(12);
+        // (name, id, formals: (name, id, mode))
+        let (pname, pid, formals): (&str, u32, Vec<(&str, u32, char)>) = match which {
+            0..=4 => ("pb", ID_PB, vec![("a", 410, 'i'), ("b", 411, 'i'), ("c", 412, 'i'), ("d", 413, 'i')]),
+            5 | 6 => ("psig", ID_PS, vec![("a", 414, 'i'), ("b", 415, 'i')]),
+            7 => ("pvo", ID_PVO, vec![("a", 418, 'i'), ("v", 419, 'o')]),
+            8 => ("pio", ID_PIO, vec![("a", 420, 'b'), ("b", 421, 'i')]),
+            9 | 10 if self.allow_outact => ("po", ID_PO, vec![("a", 416, 'i'), ("o", 417, 'o')]),
+            11 if self.allow_outact => ("pov", ID_POV, vec![("a", 422, 'i'), ("o", 423, 'o')]),
+            _ => ("pb", ID_PB, vec![("a", 410, 'i'), ("b", 411, 'i'), ("c", 412, 'i'), ("d", 413, 'i')]),
         };
         let p = self.name(pname, pid);
         self.em.tok("(");
-        let named = self.rng.chance(1, 4);
+        // positional, named (possibly reversed), or positional prefix followed by named associations
+        let style = self.rng.below(6);
         let mut order: Vec<usize> = (0..formals.len()).collect();
-        if named && self.rng.chance(1, 2) {
+        if style == 1 {
             order.reverse();
         }
         let mut args = Vec::new();
@@ -1083,18 +1224,31 @@ impl G {
             if k > 0 {
                 self.em.tok(",");
             }
-            if named {
-                self.em.tok(formals[*i]);
-                self.em.tok("=>");
-            }
-            let a = match (pname, formals[*i]) {
+            let (fname, fid, mode) = formals[*i];
+            let named = style == 0 || style == 1 || (style == 2 && k > 0);
+            let formal = if named {
+                if pname == "po" && self.rng.chance(1, 4) {
+                    // type conversion in the formal part: bit ( o ) => actual  /  bit ( a ) => actual
+                    let c = self.name("bit", ID_BIT);
+                    self.em.tok("(");
+                    let t = self.em.tok(fname);
+                    let b = self.em.tok(")");
+                    self.em.tok("=>");
+                    Some(E::Call((c.sp().0, b), Box::new(c), vec![E::Desig((t, t), Some(fid))]))
+                } else {
+                    let t = self.em.tok(fname);
+                    self.em.tok("=>");
+                    Some(E::Desig((t, t), Some(fid)))
+                }
+            } else {
+                None
+            };
+            let a = match (pname, fname) {
                 ("pb", _) | ("pvo", "a") | ("pio", "b") => self.gen_bit(d),
-                ("psig", "a") | ("po", "a") => match self.pick_sig(Ty::Bit) {
+                ("psig", "a") | ("po", "a") | ("pov", "a") => match self.pick_sig(Ty::Bit) {
                     Some(s) => self.read(s),
-                    None => {
-                        // no bit signal in the working set: read b0 anyway (it is then certainly missing)
-                        self.read(1)
-                    }
+                    // no bit signal in the working set: read b0 anyway (it is then certainly missing)
+                    None => self.read(1),
                 },
                 ("psig", "b") => self.gen_int(d),
                 ("pvo", "v") => self.name("xb", ID_XB),
@@ -1104,17 +1258,11 @@ impl G {
                     let id = sig_id(n).unwrap();
                     self.read(id)
                 }
-                ("po", "o") => {
-                    // out-mode signal actual: NOT a read (finding F20: the lint treats it as one)
-                    self.outact = true;
-                    let n = *self.rng.pick(&["ob0", "ob1", "ob2"]);
-                    let e = self.name(n, sig_id(n).unwrap());
-                    self.outs.push((sig_id(n).unwrap(), e.sp(), self.reads.len()));
-                    e
-                }
+                ("po", "o") => self.out_bit_actual(d),
+                ("pov", "o") => self.out_vec_actual(d),
                 _ => unreachable!(),
             };
-            args.push((modes[*i], a));
+            args.push((mode, formal, a));
         }
         let b = self.em.tok(")");
         self.em.tok(";");
@@ -1267,7 +1415,7 @@ impl G {
                     3 => {
                         // for i in v'range: the prefix of 'range is not read
                         self.em.toks(&format!("for {} in", lv));
-                        let vs: Vec<u32> = (1..=33u32).filter(|s| sig_ty(*s) == Ty::Vec).collect();
+                        let vs: Vec<u32> = (1..=NSIG).filter(|s| sig_ty(*s) == Ty::Vec).collect();
                         let s = vs[self.rng.below(vs.len())];
                         let p = self.name(sig_name(s), s);
                         self.em.tok("'");
@@ -1370,6 +1518,64 @@ fn oracle_pair(kw: Sp, listed: &[(u32, Sp)], reads: &[(u32, Sp)], soft: &HashSet
     format!("{}#{}", main, oracle_of(kw, listed, &alt, soft).0)
 }
 
+/// one entry of a sensitivity list for signal `s`: the plain name, or up to three levels of indexing / slicing
+/// (arrays of arrays, element of a slice), the selected package signal, or (heuristic cases) a record element
+fn list_entry(g: &mut G, s: u32) -> (E, bool) {
+    let index = |g: &mut G, p: E| -> E {
+        g.em.tok("(");
+        let v = g.rng.below(4).to_string();
+        let i = g.lit(&v);
+        let b = g.em.tok(")");
+        E::Call((p.sp().0, b), Box::new(p), vec![i])
+    };
+    let slice = |g: &mut G, p: E| -> E {
+        g.em.tok("(");
+        let a = g.lit("3");
+        g.em.tok("downto");
+        let c = g.lit("0");
+        let b = g.em.tok(")");
+        E::Slice((p.sp().0, b), Box::new(p), vec![a, c])
+    };
+    if s == GS && g.rng.chance(1, 3) {
+        let a = g.em.tok("work");
+        g.em.tok(".");
+        let p = g.em.tok("c20_pkg");
+        g.em.tok(".");
+        let b = g.em.tok("gs");
+        let pre = E::Selected((a, p), Box::new(E::Desig((a, a), Some(ID_WORK))), Some(ID_PKG));
+        return (E::Selected((a, b), Box::new(pre), Some(GS)), false);
+    }
+    let p = g.name(sig_name(s), s);
+    let form = g.rng.below(6);
+    match (sig_ty(s), form) {
+        (Ty::Vec, 0) | (Ty::Arr, 0) | (Ty::Mem, 0) => (index(g, p), false),
+        (Ty::Vec, 1) => (slice(g, p), false),
+        (Ty::Vec, 2) => {
+            let x = slice(g, p);
+            (index(g, x), false)
+        }
+        (Ty::Mem, 1) | (Ty::Mem, 2) => {
+            let x = index(g, p);
+            (index(g, x), false)
+        }
+        (Ty::Mem, 3) => {
+            let x = index(g, p);
+            (slice(g, x), false)
+        }
+        (Ty::Mem, 4) => {
+            let x = index(g, p);
+            let y = slice(g, x);
+            (index(g, y), false)
+        }
+        (Ty::Rec, 0) if g.allow_heur => {
+            g.em.tok(".");
+            let b = g.em.tok("f");
+            (E::Selected((p.sp().0, b), Box::new(p), Some(ID_F)), true)
+        }
+        _ => (p, false),
+    }
+}
+
 fn gen_case(rng: &mut Rng, id: String, label: String, max_depth: u32, allow_outact: bool) -> Case {
     let mut g = G {
         rng: rng.fork(),
@@ -1390,9 +1596,9 @@ fn gen_case(rng: &mut Rng, id: String, label: String, max_depth: u32, allow_outa
         max_depth,
     };
     // working set
-    let quota = [(Ty::Bit, 4), (Ty::Int, 3), (Ty::Vec, 2), (Ty::Arr, 1), (Ty::Rec, 1), (Ty::Bool, 1)];
+    let quota = [(Ty::Bit, 4), (Ty::Int, 3), (Ty::Vec, 2), (Ty::Arr, 1), (Ty::Rec, 1), (Ty::Bool, 1), (Ty::Mem, 1)];
     for (ty, maxn) in quota {
-        let mut c: Vec<u32> = (1..=33u32).filter(|s| sig_ty(*s) == ty && *s != CLK).collect();
+        let mut c: Vec<u32> = (1..=NSIG).filter(|s| sig_ty(*s) == ty && *s != CLK).collect();
         let n = g.rng.below(maxn + 1).max(if ty == Ty::Bit { 1 } else { 0 });
         for _ in 0..n {
             if c.is_empty() {
@@ -1444,7 +1650,7 @@ fn gen_case(rng: &mut Rng, id: String, label: String, max_depth: u32, allow_outa
                 }
             }
             for _ in 0..g.rng.below(3) {
-                let s = 1 + g.rng.below(33) as u32;
+                let s = 1 + g.rng.below(NSIG as usize) as u32;
                 if !l.contains(&s) && !g.ws.contains(&s) {
                     l.push(s);
                 }
@@ -1470,26 +1676,11 @@ fn gen_case(rng: &mut Rng, id: String, label: String, max_depth: u32, allow_outa
                 if k > 0 {
                     g.em.tok(",");
                 }
-                let p = g.name(sig_name(*s), *s);
-                let form = g.rng.below(4);
-                let e = match (sig_ty(*s), form) {
-                    (Ty::Vec, 0) | (Ty::Arr, 0) => {
-                        g.em.tok("(");
-                        let v = g.rng.below(4).to_string();
-                        let i = g.lit(&v);
-                        let b = g.em.tok(")");
-                        E::Call((p.sp().0, b), Box::new(p), vec![i])
-                    }
-                    (Ty::Vec, 1) => {
-                        g.em.tok("(");
-                        let a = g.lit("3");
-                        g.em.tok("downto");
-                        let c = g.lit("0");
-                        let b = g.em.tok(")");
-                        E::Slice((p.sp().0, b), Box::new(p), vec![a, c])
-                    }
-                    _ => p,
-                };
+                let (e, elem_key) = list_entry(&mut g, *s);
+                if elem_key {
+                    // `r . f`: the entry is keyed by the record element, not by the signal: oracle not applicable
+                    dup = true;
+                }
                 listed.push((*s, e.sp()));
                 names.push(e);
             }
